@@ -4,6 +4,16 @@ NOT_APPLICABLE = {}
 BASE_NOTE = ("Trusted: Lean 4.33 kernel (axioms at most propext, Classical.choice, Quot.sound; audited per theorem on every run), "
              "the go/ast fact extractor and its expectations, the seeded correspondence harness (coverage reported in evidence). ")
 TEXT = {
+    "C14": dict(
+        text="Theorems mutual_exclusion, no_lost_update, every_write_is_in_the_log, finished_all_applied, no_torn_read, "
+             "writer_never_reads_empty over a micro-step model of Save / Load / UpdateFullStatus (acquire, read+apply, truncate, "
+             "write, release) for any number of threads, any programs and every schedule, by an inductive invariant. Tie: regenerated "
+             "facts (order lock < open < ... < close < unlock in every primitive, exclusive lock flags, UpdateBasicStatus and "
+             "saveStdoutSize are nothing but UpdateFullStatus, BaseWorkUnit wrappers) + differential runs of the real primitives by "
+             "goroutines (own StatusFileData or sharing one BaseWorkUnit) and re-executed OS processes on one status file, in rounds "
+             "with a parked lock holder forcing contention; every update tags the record, so the stored record shows the serial order, "
+             "which the model replays; loads by concurrent reader goroutines/processes are checked against the prefix states.",
+        note=BASE_NOTE + "The file lock itself (flock through lockedfile) is trusted and exercised, not proved; OS interleavings are sampled."),
     "C15": dict(
         text="Theorems effect_requires_token, refused_has_no_effect, unexpected_token_refused, unix_socket_exempt, "
              "info_commands_never_effect over the decision model of processSignature and the dispatch order of ControlFunc. Tie: "
